@@ -15,6 +15,16 @@ from common import frac, rstr, rparse, close
 import determ_lib as L
 import engine_io
 
+_builtin_float = float
+
+
+def float(x):  # noqa: A001 — overflow-safe: a huge exact rational becomes ±inf instead of raising OverflowError
+    try:
+        return _builtin_float(x)
+    except OverflowError:
+        return _builtin_float("inf") if x > 0 else _builtin_float("-inf")
+
+
 ID = "C01"
 LEAN_TARGETS = ["Strengths.Props.C01"]
 PROP_FILES = ["Strengths/Props/C01.lean"]
@@ -281,6 +291,9 @@ def run_euler(ctx, jobs):
             continue
         dt_si = Fraction(float(script.time_step.value)) * L.si_factor(L.sys_of(script.time_step.units.sys), L.D_TIME)
         for kstep in range(len(ss) - 1):
+            if not all(abs(v) < 1e150 for v in ss[kstep][1] + ss[kstep + 1][1]):
+                ctx.count("euler_blowup_skipped")     # explicit Euler with a coarse step diverged (inf/nan): nothing to compare
+                break
             x0 = [Fraction(v) * fq for v in ss[kstep][1]]
             x1 = [Fraction(v) * fq for v in ss[kstep + 1][1]]
             orc = L.oracle_rate(phys, x0)
